@@ -5,7 +5,7 @@ CORRESPONDENCES = {
     # K-codec: Value::to_json / value_util::from_json_value vs toJson / fromJson
     "codec": {"sub": "codec", "cases": {"quick": 30000, "thorough": 400000}, "shards": {"quick": 16, "thorough": 16}},
     # K-ops: Crossover::crossover / mutation::mutate in operation sequences sharing one PathContext vs crossAcc / mutAcc
-    "ops": {"sub": "ops", "cases": {"quick": 8000, "thorough": 60000}, "shards": {"quick": 16, "thorough": 16}},
+    "ops": {"sub": "ops", "cases": {"quick": 8000, "thorough": 24000}, "shards": {"quick": 16, "thorough": 16}},
     # K-algo: the real AlgoContext driven directly; every in-run crossover/mutation call (hook H3) vs crossAcc / mutAcc
     "algo": {"sub": "algo", "cases": {"quick": 480, "thorough": 4000}, "shards": {"quick": 16, "thorough": 16}},
     # K-spec: spec_util::from_yaml_str on generated YAML text vs build
@@ -132,7 +132,7 @@ PROPS = {
     },
     "C12": {
         "modules": ["CambrianModel.Props.C12"],
-        "theorems": ["Cambrian.Props.C12_prov", "Cambrian.Props.C12_single", "Cambrian.Props.C12_same"],
+        "theorems": ["Cambrian.Props.C12_prov", "Cambrian.Props.C12_single", "Cambrian.Props.C12_same", "Cambrian.Props.C12_keys_refine"],
         "correspondences": ["ops"],
         "trusted": OPS_TRUST,
         "assumptions": ["float laws used: none", "parents conform to a well-formed spec"],
@@ -199,7 +199,7 @@ PROPS = {
     },
     "C05": {
         "modules": ["CambrianModel.Props.C05"],
-        "theorems": ["Cambrian.Props.C05_le", "Cambrian.Props.C05_inflight_seeds_nodup", "Cambrian.Props.C05_exact"],
+        "theorems": ["Cambrian.Props.C05_le", "Cambrian.Props.C05_inflight_seeds_nodup", "Cambrian.Props.C05_unique", "Cambrian.Props.C05_exact"],
         "correspondences": ["ctl", "pop", "run"],
         "trusted": CTL_TRUST,
         "assumptions": ["float laws used: none"],
